@@ -922,6 +922,17 @@ pub trait Visitor<'de>: Sized {
     fn visit_map<A: MapModel<'de>>(self, map: A) -> Result<Self::Value, DeError> requires map.map_ok();
     fn visit_enum<A: EnumModel<'de>>(self, data: A) -> Result<Self::Value, DeError> requires data.enum_ok();
     fn visit_borrowed_str(self, v: &'de str) -> Result<Self::Value, DeError>;
+    fn visit_str(self, v: &str) -> Result<Self::Value, DeError>;
+    fn visit_i8(self, v: i8) -> Result<Self::Value, DeError>;
+    fn visit_i16(self, v: i16) -> Result<Self::Value, DeError>;
+    fn visit_i32(self, v: i32) -> Result<Self::Value, DeError>;
+    fn visit_i64(self, v: i64) -> Result<Self::Value, DeError>;
+    fn visit_u8(self, v: u8) -> Result<Self::Value, DeError>;
+    fn visit_u16(self, v: u16) -> Result<Self::Value, DeError>;
+    fn visit_u32(self, v: u32) -> Result<Self::Value, DeError>;
+    fn visit_u64(self, v: u64) -> Result<Self::Value, DeError>;
+    fn visit_f32(self, v: f32) -> Result<Self::Value, DeError>;
+    fn visit_f64(self, v: f64) -> Result<Self::Value, DeError>;
     fn visit_string(self, v: String) -> Result<Self::Value, DeError>;
     fn visit_some<D: DeModel<'de>>(self, deserializer: D) -> Result<Self::Value, DeError>
         requires deserializer.de_ok();
@@ -1020,6 +1031,10 @@ impl<'de> SimpleTypeDeserializer<'de> {
     #[verifier::external_body]
     pub fn deserialize_seq<V: Visitor<'de>>(self, visitor: V) -> Result<V::Value, DeError> { unimplemented!() }
 }
+/// `str::parse::<T>()` for the number types (std FromStr, not modelled): a number or not -- nothing else is used (declared rewrite
+/// `text.parse()` ==> `parse_(&text)`)
+#[verifier::external_body]
+pub fn parse_<T>(s: &Cow<'_, str>) -> Result<T, ()> { unimplemented!() }
 /// stand-in for utils::CowRef (the real one: unit dekey): only that its `deserialize_bool` returns is used here
 pub enum CowRef<'i, 's> { Input(&'i str), Slice(&'s str), Owned(String) }
 impl<'i, 's> CowRef<'i, 's> {
@@ -2244,6 +2259,26 @@ pub trait DeDeserializerFwd<'de>: DeDeserializerVal<'de> {
         requires self.val_ok();
     fn deserialize_bool<V: Visitor<'de>>(self, visitor: V) -> (r: Result<V::Value, DeError>)
         requires self.val_ok();
+    fn deserialize_i8<V: Visitor<'de>>(self, visitor: V) -> (r: Result<V::Value, DeError>)
+        requires self.val_ok();
+    fn deserialize_i16<V: Visitor<'de>>(self, visitor: V) -> (r: Result<V::Value, DeError>)
+        requires self.val_ok();
+    fn deserialize_i32<V: Visitor<'de>>(self, visitor: V) -> (r: Result<V::Value, DeError>)
+        requires self.val_ok();
+    fn deserialize_i64<V: Visitor<'de>>(self, visitor: V) -> (r: Result<V::Value, DeError>)
+        requires self.val_ok();
+    fn deserialize_u8<V: Visitor<'de>>(self, visitor: V) -> (r: Result<V::Value, DeError>)
+        requires self.val_ok();
+    fn deserialize_u16<V: Visitor<'de>>(self, visitor: V) -> (r: Result<V::Value, DeError>)
+        requires self.val_ok();
+    fn deserialize_u32<V: Visitor<'de>>(self, visitor: V) -> (r: Result<V::Value, DeError>)
+        requires self.val_ok();
+    fn deserialize_u64<V: Visitor<'de>>(self, visitor: V) -> (r: Result<V::Value, DeError>)
+        requires self.val_ok();
+    fn deserialize_f32<V: Visitor<'de>>(self, visitor: V) -> (r: Result<V::Value, DeError>)
+        requires self.val_ok();
+    fn deserialize_f64<V: Visitor<'de>>(self, visitor: V) -> (r: Result<V::Value, DeError>)
+        requires self.val_ok();
     fn deserialize_char<V: Visitor<'de>>(self, visitor: V) -> (r: Result<V::Value, DeError>)
         requires self.val_ok();
     fn deserialize_str<V: Visitor<'de>>(self, visitor: V) -> (r: Result<V::Value, DeError>)
@@ -2334,6 +2369,186 @@ where
                 Cow::Owned(s) => CowRef::Owned(s),
             };
             text.deserialize_bool(visitor)
+        }
+//@end
+//@extract de::Deserializer::deserialize_i8 | src/de/mod.rs :: impl<'de, 'a, R, E> de::Deserializer<'de> for &'a mut Deserializer<'de, R, E> where R: XmlRead<'de>, E: EntityResolver, :: invoke deserialize_primitives :: invoke deserialize_num :: fn deserialize_i8 | serves=C07 features=serialize
+//@rewrite-opt Self::Error ==> DeError
+//@rewrite text.parse() ==> parse_(&text)
+        fn deserialize_i8<V>( self, visitor: V) -> Result<V::Value, DeError>
+        where
+            V: Visitor<'de>,
+        {
+            // No need to unescape because valid integer representations cannot be escaped
+            let text = self.read_string()?;
+            match parse_(&text) {
+                Ok(number) => visitor.visit_i8(number),
+                Err(_) => match text {
+                    Cow::Borrowed(t) => visitor.visit_str(t),
+                    Cow::Owned(t) => visitor.visit_string(t),
+                }
+            }
+        }
+//@end
+//@extract de::Deserializer::deserialize_i16 | src/de/mod.rs :: impl<'de, 'a, R, E> de::Deserializer<'de> for &'a mut Deserializer<'de, R, E> where R: XmlRead<'de>, E: EntityResolver, :: invoke deserialize_primitives :: invoke deserialize_num :: fn deserialize_i16 | serves=C07 features=serialize
+//@rewrite-opt Self::Error ==> DeError
+//@rewrite text.parse() ==> parse_(&text)
+        fn deserialize_i16<V>( self, visitor: V) -> Result<V::Value, DeError>
+        where
+            V: Visitor<'de>,
+        {
+            // No need to unescape because valid integer representations cannot be escaped
+            let text = self.read_string()?;
+            match parse_(&text) {
+                Ok(number) => visitor.visit_i16(number),
+                Err(_) => match text {
+                    Cow::Borrowed(t) => visitor.visit_str(t),
+                    Cow::Owned(t) => visitor.visit_string(t),
+                }
+            }
+        }
+//@end
+//@extract de::Deserializer::deserialize_i32 | src/de/mod.rs :: impl<'de, 'a, R, E> de::Deserializer<'de> for &'a mut Deserializer<'de, R, E> where R: XmlRead<'de>, E: EntityResolver, :: invoke deserialize_primitives :: invoke deserialize_num :: fn deserialize_i32 | serves=C07 features=serialize
+//@rewrite-opt Self::Error ==> DeError
+//@rewrite text.parse() ==> parse_(&text)
+        fn deserialize_i32<V>( self, visitor: V) -> Result<V::Value, DeError>
+        where
+            V: Visitor<'de>,
+        {
+            // No need to unescape because valid integer representations cannot be escaped
+            let text = self.read_string()?;
+            match parse_(&text) {
+                Ok(number) => visitor.visit_i32(number),
+                Err(_) => match text {
+                    Cow::Borrowed(t) => visitor.visit_str(t),
+                    Cow::Owned(t) => visitor.visit_string(t),
+                }
+            }
+        }
+//@end
+//@extract de::Deserializer::deserialize_i64 | src/de/mod.rs :: impl<'de, 'a, R, E> de::Deserializer<'de> for &'a mut Deserializer<'de, R, E> where R: XmlRead<'de>, E: EntityResolver, :: invoke deserialize_primitives :: invoke deserialize_num :: fn deserialize_i64 | serves=C07 features=serialize
+//@rewrite-opt Self::Error ==> DeError
+//@rewrite text.parse() ==> parse_(&text)
+        fn deserialize_i64<V>( self, visitor: V) -> Result<V::Value, DeError>
+        where
+            V: Visitor<'de>,
+        {
+            // No need to unescape because valid integer representations cannot be escaped
+            let text = self.read_string()?;
+            match parse_(&text) {
+                Ok(number) => visitor.visit_i64(number),
+                Err(_) => match text {
+                    Cow::Borrowed(t) => visitor.visit_str(t),
+                    Cow::Owned(t) => visitor.visit_string(t),
+                }
+            }
+        }
+//@end
+//@extract de::Deserializer::deserialize_u8 | src/de/mod.rs :: impl<'de, 'a, R, E> de::Deserializer<'de> for &'a mut Deserializer<'de, R, E> where R: XmlRead<'de>, E: EntityResolver, :: invoke deserialize_primitives :: invoke deserialize_num :: fn deserialize_u8 | serves=C07 features=serialize
+//@rewrite-opt Self::Error ==> DeError
+//@rewrite text.parse() ==> parse_(&text)
+        fn deserialize_u8<V>( self, visitor: V) -> Result<V::Value, DeError>
+        where
+            V: Visitor<'de>,
+        {
+            // No need to unescape because valid integer representations cannot be escaped
+            let text = self.read_string()?;
+            match parse_(&text) {
+                Ok(number) => visitor.visit_u8(number),
+                Err(_) => match text {
+                    Cow::Borrowed(t) => visitor.visit_str(t),
+                    Cow::Owned(t) => visitor.visit_string(t),
+                }
+            }
+        }
+//@end
+//@extract de::Deserializer::deserialize_u16 | src/de/mod.rs :: impl<'de, 'a, R, E> de::Deserializer<'de> for &'a mut Deserializer<'de, R, E> where R: XmlRead<'de>, E: EntityResolver, :: invoke deserialize_primitives :: invoke deserialize_num :: fn deserialize_u16 | serves=C07 features=serialize
+//@rewrite-opt Self::Error ==> DeError
+//@rewrite text.parse() ==> parse_(&text)
+        fn deserialize_u16<V>( self, visitor: V) -> Result<V::Value, DeError>
+        where
+            V: Visitor<'de>,
+        {
+            // No need to unescape because valid integer representations cannot be escaped
+            let text = self.read_string()?;
+            match parse_(&text) {
+                Ok(number) => visitor.visit_u16(number),
+                Err(_) => match text {
+                    Cow::Borrowed(t) => visitor.visit_str(t),
+                    Cow::Owned(t) => visitor.visit_string(t),
+                }
+            }
+        }
+//@end
+//@extract de::Deserializer::deserialize_u32 | src/de/mod.rs :: impl<'de, 'a, R, E> de::Deserializer<'de> for &'a mut Deserializer<'de, R, E> where R: XmlRead<'de>, E: EntityResolver, :: invoke deserialize_primitives :: invoke deserialize_num :: fn deserialize_u32 | serves=C07 features=serialize
+//@rewrite-opt Self::Error ==> DeError
+//@rewrite text.parse() ==> parse_(&text)
+        fn deserialize_u32<V>( self, visitor: V) -> Result<V::Value, DeError>
+        where
+            V: Visitor<'de>,
+        {
+            // No need to unescape because valid integer representations cannot be escaped
+            let text = self.read_string()?;
+            match parse_(&text) {
+                Ok(number) => visitor.visit_u32(number),
+                Err(_) => match text {
+                    Cow::Borrowed(t) => visitor.visit_str(t),
+                    Cow::Owned(t) => visitor.visit_string(t),
+                }
+            }
+        }
+//@end
+//@extract de::Deserializer::deserialize_u64 | src/de/mod.rs :: impl<'de, 'a, R, E> de::Deserializer<'de> for &'a mut Deserializer<'de, R, E> where R: XmlRead<'de>, E: EntityResolver, :: invoke deserialize_primitives :: invoke deserialize_num :: fn deserialize_u64 | serves=C07 features=serialize
+//@rewrite-opt Self::Error ==> DeError
+//@rewrite text.parse() ==> parse_(&text)
+        fn deserialize_u64<V>( self, visitor: V) -> Result<V::Value, DeError>
+        where
+            V: Visitor<'de>,
+        {
+            // No need to unescape because valid integer representations cannot be escaped
+            let text = self.read_string()?;
+            match parse_(&text) {
+                Ok(number) => visitor.visit_u64(number),
+                Err(_) => match text {
+                    Cow::Borrowed(t) => visitor.visit_str(t),
+                    Cow::Owned(t) => visitor.visit_string(t),
+                }
+            }
+        }
+//@end
+//@extract de::Deserializer::deserialize_f32 | src/de/mod.rs :: impl<'de, 'a, R, E> de::Deserializer<'de> for &'a mut Deserializer<'de, R, E> where R: XmlRead<'de>, E: EntityResolver, :: invoke deserialize_primitives :: invoke deserialize_num :: fn deserialize_f32 | serves=C07 features=serialize
+//@rewrite-opt Self::Error ==> DeError
+//@rewrite text.parse() ==> parse_(&text)
+        fn deserialize_f32<V>( self, visitor: V) -> Result<V::Value, DeError>
+        where
+            V: Visitor<'de>,
+        {
+            // No need to unescape because valid integer representations cannot be escaped
+            let text = self.read_string()?;
+            match parse_(&text) {
+                Ok(number) => visitor.visit_f32(number),
+                Err(_) => match text {
+                    Cow::Borrowed(t) => visitor.visit_str(t),
+                    Cow::Owned(t) => visitor.visit_string(t),
+                }
+            }
+        }
+//@end
+//@extract de::Deserializer::deserialize_f64 | src/de/mod.rs :: impl<'de, 'a, R, E> de::Deserializer<'de> for &'a mut Deserializer<'de, R, E> where R: XmlRead<'de>, E: EntityResolver, :: invoke deserialize_primitives :: invoke deserialize_num :: fn deserialize_f64 | serves=C07 features=serialize
+//@rewrite-opt Self::Error ==> DeError
+//@rewrite text.parse() ==> parse_(&text)
+        fn deserialize_f64<V>( self, visitor: V) -> Result<V::Value, DeError>
+        where
+            V: Visitor<'de>,
+        {
+            // No need to unescape because valid integer representations cannot be escaped
+            let text = self.read_string()?;
+            match parse_(&text) {
+                Ok(number) => visitor.visit_f64(number),
+                Err(_) => match text {
+                    Cow::Borrowed(t) => visitor.visit_str(t),
+                    Cow::Owned(t) => visitor.visit_string(t),
+                }
+            }
         }
 //@end
 //@extract de::Deserializer::deserialize_char | src/de/mod.rs :: impl<'de, 'a, R, E> de::Deserializer<'de> for &'a mut Deserializer<'de, R, E> where R: XmlRead<'de>, E: EntityResolver, :: invoke deserialize_primitives :: fn deserialize_char | serves=C07 features=serialize
@@ -2744,6 +2959,186 @@ impl<'de> TextDeserializer<'de> {
             text.deserialize_bool(visitor)
         }
 //@end
+//@extract de::text::TextDeserializer::deserialize_i8 | src/de/text.rs :: impl<'de> Deserializer<'de> for TextDeserializer<'de> :: invoke deserialize_primitives :: invoke deserialize_num :: fn deserialize_i8 | serves=C07 features=serialize macro_files=src/de/mod.rs
+//@rewrite-opt Self::Error ==> DeError
+//@rewrite text.parse() ==> parse_(&text)
+        fn deserialize_i8<V>( self, visitor: V) -> Result<V::Value, DeError>
+        where
+            V: Visitor<'de>,
+        {
+            // No need to unescape because valid integer representations cannot be escaped
+            let text = self.read_string()?;
+            match parse_(&text) {
+                Ok(number) => visitor.visit_i8(number),
+                Err(_) => match text {
+                    Cow::Borrowed(t) => visitor.visit_str(t),
+                    Cow::Owned(t) => visitor.visit_string(t),
+                }
+            }
+        }
+//@end
+//@extract de::text::TextDeserializer::deserialize_i16 | src/de/text.rs :: impl<'de> Deserializer<'de> for TextDeserializer<'de> :: invoke deserialize_primitives :: invoke deserialize_num :: fn deserialize_i16 | serves=C07 features=serialize macro_files=src/de/mod.rs
+//@rewrite-opt Self::Error ==> DeError
+//@rewrite text.parse() ==> parse_(&text)
+        fn deserialize_i16<V>( self, visitor: V) -> Result<V::Value, DeError>
+        where
+            V: Visitor<'de>,
+        {
+            // No need to unescape because valid integer representations cannot be escaped
+            let text = self.read_string()?;
+            match parse_(&text) {
+                Ok(number) => visitor.visit_i16(number),
+                Err(_) => match text {
+                    Cow::Borrowed(t) => visitor.visit_str(t),
+                    Cow::Owned(t) => visitor.visit_string(t),
+                }
+            }
+        }
+//@end
+//@extract de::text::TextDeserializer::deserialize_i32 | src/de/text.rs :: impl<'de> Deserializer<'de> for TextDeserializer<'de> :: invoke deserialize_primitives :: invoke deserialize_num :: fn deserialize_i32 | serves=C07 features=serialize macro_files=src/de/mod.rs
+//@rewrite-opt Self::Error ==> DeError
+//@rewrite text.parse() ==> parse_(&text)
+        fn deserialize_i32<V>( self, visitor: V) -> Result<V::Value, DeError>
+        where
+            V: Visitor<'de>,
+        {
+            // No need to unescape because valid integer representations cannot be escaped
+            let text = self.read_string()?;
+            match parse_(&text) {
+                Ok(number) => visitor.visit_i32(number),
+                Err(_) => match text {
+                    Cow::Borrowed(t) => visitor.visit_str(t),
+                    Cow::Owned(t) => visitor.visit_string(t),
+                }
+            }
+        }
+//@end
+//@extract de::text::TextDeserializer::deserialize_i64 | src/de/text.rs :: impl<'de> Deserializer<'de> for TextDeserializer<'de> :: invoke deserialize_primitives :: invoke deserialize_num :: fn deserialize_i64 | serves=C07 features=serialize macro_files=src/de/mod.rs
+//@rewrite-opt Self::Error ==> DeError
+//@rewrite text.parse() ==> parse_(&text)
+        fn deserialize_i64<V>( self, visitor: V) -> Result<V::Value, DeError>
+        where
+            V: Visitor<'de>,
+        {
+            // No need to unescape because valid integer representations cannot be escaped
+            let text = self.read_string()?;
+            match parse_(&text) {
+                Ok(number) => visitor.visit_i64(number),
+                Err(_) => match text {
+                    Cow::Borrowed(t) => visitor.visit_str(t),
+                    Cow::Owned(t) => visitor.visit_string(t),
+                }
+            }
+        }
+//@end
+//@extract de::text::TextDeserializer::deserialize_u8 | src/de/text.rs :: impl<'de> Deserializer<'de> for TextDeserializer<'de> :: invoke deserialize_primitives :: invoke deserialize_num :: fn deserialize_u8 | serves=C07 features=serialize macro_files=src/de/mod.rs
+//@rewrite-opt Self::Error ==> DeError
+//@rewrite text.parse() ==> parse_(&text)
+        fn deserialize_u8<V>( self, visitor: V) -> Result<V::Value, DeError>
+        where
+            V: Visitor<'de>,
+        {
+            // No need to unescape because valid integer representations cannot be escaped
+            let text = self.read_string()?;
+            match parse_(&text) {
+                Ok(number) => visitor.visit_u8(number),
+                Err(_) => match text {
+                    Cow::Borrowed(t) => visitor.visit_str(t),
+                    Cow::Owned(t) => visitor.visit_string(t),
+                }
+            }
+        }
+//@end
+//@extract de::text::TextDeserializer::deserialize_u16 | src/de/text.rs :: impl<'de> Deserializer<'de> for TextDeserializer<'de> :: invoke deserialize_primitives :: invoke deserialize_num :: fn deserialize_u16 | serves=C07 features=serialize macro_files=src/de/mod.rs
+//@rewrite-opt Self::Error ==> DeError
+//@rewrite text.parse() ==> parse_(&text)
+        fn deserialize_u16<V>( self, visitor: V) -> Result<V::Value, DeError>
+        where
+            V: Visitor<'de>,
+        {
+            // No need to unescape because valid integer representations cannot be escaped
+            let text = self.read_string()?;
+            match parse_(&text) {
+                Ok(number) => visitor.visit_u16(number),
+                Err(_) => match text {
+                    Cow::Borrowed(t) => visitor.visit_str(t),
+                    Cow::Owned(t) => visitor.visit_string(t),
+                }
+            }
+        }
+//@end
+//@extract de::text::TextDeserializer::deserialize_u32 | src/de/text.rs :: impl<'de> Deserializer<'de> for TextDeserializer<'de> :: invoke deserialize_primitives :: invoke deserialize_num :: fn deserialize_u32 | serves=C07 features=serialize macro_files=src/de/mod.rs
+//@rewrite-opt Self::Error ==> DeError
+//@rewrite text.parse() ==> parse_(&text)
+        fn deserialize_u32<V>( self, visitor: V) -> Result<V::Value, DeError>
+        where
+            V: Visitor<'de>,
+        {
+            // No need to unescape because valid integer representations cannot be escaped
+            let text = self.read_string()?;
+            match parse_(&text) {
+                Ok(number) => visitor.visit_u32(number),
+                Err(_) => match text {
+                    Cow::Borrowed(t) => visitor.visit_str(t),
+                    Cow::Owned(t) => visitor.visit_string(t),
+                }
+            }
+        }
+//@end
+//@extract de::text::TextDeserializer::deserialize_u64 | src/de/text.rs :: impl<'de> Deserializer<'de> for TextDeserializer<'de> :: invoke deserialize_primitives :: invoke deserialize_num :: fn deserialize_u64 | serves=C07 features=serialize macro_files=src/de/mod.rs
+//@rewrite-opt Self::Error ==> DeError
+//@rewrite text.parse() ==> parse_(&text)
+        fn deserialize_u64<V>( self, visitor: V) -> Result<V::Value, DeError>
+        where
+            V: Visitor<'de>,
+        {
+            // No need to unescape because valid integer representations cannot be escaped
+            let text = self.read_string()?;
+            match parse_(&text) {
+                Ok(number) => visitor.visit_u64(number),
+                Err(_) => match text {
+                    Cow::Borrowed(t) => visitor.visit_str(t),
+                    Cow::Owned(t) => visitor.visit_string(t),
+                }
+            }
+        }
+//@end
+//@extract de::text::TextDeserializer::deserialize_f32 | src/de/text.rs :: impl<'de> Deserializer<'de> for TextDeserializer<'de> :: invoke deserialize_primitives :: invoke deserialize_num :: fn deserialize_f32 | serves=C07 features=serialize macro_files=src/de/mod.rs
+//@rewrite-opt Self::Error ==> DeError
+//@rewrite text.parse() ==> parse_(&text)
+        fn deserialize_f32<V>( self, visitor: V) -> Result<V::Value, DeError>
+        where
+            V: Visitor<'de>,
+        {
+            // No need to unescape because valid integer representations cannot be escaped
+            let text = self.read_string()?;
+            match parse_(&text) {
+                Ok(number) => visitor.visit_f32(number),
+                Err(_) => match text {
+                    Cow::Borrowed(t) => visitor.visit_str(t),
+                    Cow::Owned(t) => visitor.visit_string(t),
+                }
+            }
+        }
+//@end
+//@extract de::text::TextDeserializer::deserialize_f64 | src/de/text.rs :: impl<'de> Deserializer<'de> for TextDeserializer<'de> :: invoke deserialize_primitives :: invoke deserialize_num :: fn deserialize_f64 | serves=C07 features=serialize macro_files=src/de/mod.rs
+//@rewrite-opt Self::Error ==> DeError
+//@rewrite text.parse() ==> parse_(&text)
+        fn deserialize_f64<V>( self, visitor: V) -> Result<V::Value, DeError>
+        where
+            V: Visitor<'de>,
+        {
+            // No need to unescape because valid integer representations cannot be escaped
+            let text = self.read_string()?;
+            match parse_(&text) {
+                Ok(number) => visitor.visit_f64(number),
+                Err(_) => match text {
+                    Cow::Borrowed(t) => visitor.visit_str(t),
+                    Cow::Owned(t) => visitor.visit_string(t),
+                }
+            }
+        }
+//@end
 //@extract de::text::TextDeserializer::deserialize_char | src/de/text.rs :: impl<'de> Deserializer<'de> for TextDeserializer<'de> :: invoke deserialize_primitives :: fn deserialize_char | serves=C07 features=serialize macro_files=src/de/mod.rs
 //@rewrite-opt Self::Error ==> DeError
         fn deserialize_char<V>(self, visitor: V) -> Result<V::Value, DeError>
@@ -2998,6 +3393,196 @@ where
             text.deserialize_bool(visitor)
         }
 //@end
+//@extract de::map::MapValueDeserializer::deserialize_i8 | src/de/map.rs :: impl<'de, 'd, 'm, R, E> de::Deserializer<'de> for MapValueDeserializer<'de, 'd, 'm, R, E> where R: XmlRead<'de>, E: EntityResolver, :: invoke deserialize_primitives :: invoke deserialize_num :: fn deserialize_i8 | serves=C07 features=serialize macro_files=src/de/mod.rs
+//@rewrite-opt Self::Error ==> DeError
+//@rewrite text.parse() ==> parse_(&text)
+        fn deserialize_i8<V>(self, visitor: V) -> Result<V::Value, DeError>
+        where
+            V: Visitor<'de>,
+            requires self.ok(),
+        { let mut self__ = self;
+            // No need to unescape because valid integer representations cannot be escaped
+            let text = self__.read_string()?;
+            match parse_(&text) {
+                Ok(number) => visitor.visit_i8(number),
+                Err(_) => match text {
+                    Cow::Borrowed(t) => visitor.visit_str(t),
+                    Cow::Owned(t) => visitor.visit_string(t),
+                }
+            }
+        }
+//@end
+//@extract de::map::MapValueDeserializer::deserialize_i16 | src/de/map.rs :: impl<'de, 'd, 'm, R, E> de::Deserializer<'de> for MapValueDeserializer<'de, 'd, 'm, R, E> where R: XmlRead<'de>, E: EntityResolver, :: invoke deserialize_primitives :: invoke deserialize_num :: fn deserialize_i16 | serves=C07 features=serialize macro_files=src/de/mod.rs
+//@rewrite-opt Self::Error ==> DeError
+//@rewrite text.parse() ==> parse_(&text)
+        fn deserialize_i16<V>(self, visitor: V) -> Result<V::Value, DeError>
+        where
+            V: Visitor<'de>,
+            requires self.ok(),
+        { let mut self__ = self;
+            // No need to unescape because valid integer representations cannot be escaped
+            let text = self__.read_string()?;
+            match parse_(&text) {
+                Ok(number) => visitor.visit_i16(number),
+                Err(_) => match text {
+                    Cow::Borrowed(t) => visitor.visit_str(t),
+                    Cow::Owned(t) => visitor.visit_string(t),
+                }
+            }
+        }
+//@end
+//@extract de::map::MapValueDeserializer::deserialize_i32 | src/de/map.rs :: impl<'de, 'd, 'm, R, E> de::Deserializer<'de> for MapValueDeserializer<'de, 'd, 'm, R, E> where R: XmlRead<'de>, E: EntityResolver, :: invoke deserialize_primitives :: invoke deserialize_num :: fn deserialize_i32 | serves=C07 features=serialize macro_files=src/de/mod.rs
+//@rewrite-opt Self::Error ==> DeError
+//@rewrite text.parse() ==> parse_(&text)
+        fn deserialize_i32<V>(self, visitor: V) -> Result<V::Value, DeError>
+        where
+            V: Visitor<'de>,
+            requires self.ok(),
+        { let mut self__ = self;
+            // No need to unescape because valid integer representations cannot be escaped
+            let text = self__.read_string()?;
+            match parse_(&text) {
+                Ok(number) => visitor.visit_i32(number),
+                Err(_) => match text {
+                    Cow::Borrowed(t) => visitor.visit_str(t),
+                    Cow::Owned(t) => visitor.visit_string(t),
+                }
+            }
+        }
+//@end
+//@extract de::map::MapValueDeserializer::deserialize_i64 | src/de/map.rs :: impl<'de, 'd, 'm, R, E> de::Deserializer<'de> for MapValueDeserializer<'de, 'd, 'm, R, E> where R: XmlRead<'de>, E: EntityResolver, :: invoke deserialize_primitives :: invoke deserialize_num :: fn deserialize_i64 | serves=C07 features=serialize macro_files=src/de/mod.rs
+//@rewrite-opt Self::Error ==> DeError
+//@rewrite text.parse() ==> parse_(&text)
+        fn deserialize_i64<V>(self, visitor: V) -> Result<V::Value, DeError>
+        where
+            V: Visitor<'de>,
+            requires self.ok(),
+        { let mut self__ = self;
+            // No need to unescape because valid integer representations cannot be escaped
+            let text = self__.read_string()?;
+            match parse_(&text) {
+                Ok(number) => visitor.visit_i64(number),
+                Err(_) => match text {
+                    Cow::Borrowed(t) => visitor.visit_str(t),
+                    Cow::Owned(t) => visitor.visit_string(t),
+                }
+            }
+        }
+//@end
+//@extract de::map::MapValueDeserializer::deserialize_u8 | src/de/map.rs :: impl<'de, 'd, 'm, R, E> de::Deserializer<'de> for MapValueDeserializer<'de, 'd, 'm, R, E> where R: XmlRead<'de>, E: EntityResolver, :: invoke deserialize_primitives :: invoke deserialize_num :: fn deserialize_u8 | serves=C07 features=serialize macro_files=src/de/mod.rs
+//@rewrite-opt Self::Error ==> DeError
+//@rewrite text.parse() ==> parse_(&text)
+        fn deserialize_u8<V>(self, visitor: V) -> Result<V::Value, DeError>
+        where
+            V: Visitor<'de>,
+            requires self.ok(),
+        { let mut self__ = self;
+            // No need to unescape because valid integer representations cannot be escaped
+            let text = self__.read_string()?;
+            match parse_(&text) {
+                Ok(number) => visitor.visit_u8(number),
+                Err(_) => match text {
+                    Cow::Borrowed(t) => visitor.visit_str(t),
+                    Cow::Owned(t) => visitor.visit_string(t),
+                }
+            }
+        }
+//@end
+//@extract de::map::MapValueDeserializer::deserialize_u16 | src/de/map.rs :: impl<'de, 'd, 'm, R, E> de::Deserializer<'de> for MapValueDeserializer<'de, 'd, 'm, R, E> where R: XmlRead<'de>, E: EntityResolver, :: invoke deserialize_primitives :: invoke deserialize_num :: fn deserialize_u16 | serves=C07 features=serialize macro_files=src/de/mod.rs
+//@rewrite-opt Self::Error ==> DeError
+//@rewrite text.parse() ==> parse_(&text)
+        fn deserialize_u16<V>(self, visitor: V) -> Result<V::Value, DeError>
+        where
+            V: Visitor<'de>,
+            requires self.ok(),
+        { let mut self__ = self;
+            // No need to unescape because valid integer representations cannot be escaped
+            let text = self__.read_string()?;
+            match parse_(&text) {
+                Ok(number) => visitor.visit_u16(number),
+                Err(_) => match text {
+                    Cow::Borrowed(t) => visitor.visit_str(t),
+                    Cow::Owned(t) => visitor.visit_string(t),
+                }
+            }
+        }
+//@end
+//@extract de::map::MapValueDeserializer::deserialize_u32 | src/de/map.rs :: impl<'de, 'd, 'm, R, E> de::Deserializer<'de> for MapValueDeserializer<'de, 'd, 'm, R, E> where R: XmlRead<'de>, E: EntityResolver, :: invoke deserialize_primitives :: invoke deserialize_num :: fn deserialize_u32 | serves=C07 features=serialize macro_files=src/de/mod.rs
+//@rewrite-opt Self::Error ==> DeError
+//@rewrite text.parse() ==> parse_(&text)
+        fn deserialize_u32<V>(self, visitor: V) -> Result<V::Value, DeError>
+        where
+            V: Visitor<'de>,
+            requires self.ok(),
+        { let mut self__ = self;
+            // No need to unescape because valid integer representations cannot be escaped
+            let text = self__.read_string()?;
+            match parse_(&text) {
+                Ok(number) => visitor.visit_u32(number),
+                Err(_) => match text {
+                    Cow::Borrowed(t) => visitor.visit_str(t),
+                    Cow::Owned(t) => visitor.visit_string(t),
+                }
+            }
+        }
+//@end
+//@extract de::map::MapValueDeserializer::deserialize_u64 | src/de/map.rs :: impl<'de, 'd, 'm, R, E> de::Deserializer<'de> for MapValueDeserializer<'de, 'd, 'm, R, E> where R: XmlRead<'de>, E: EntityResolver, :: invoke deserialize_primitives :: invoke deserialize_num :: fn deserialize_u64 | serves=C07 features=serialize macro_files=src/de/mod.rs
+//@rewrite-opt Self::Error ==> DeError
+//@rewrite text.parse() ==> parse_(&text)
+        fn deserialize_u64<V>(self, visitor: V) -> Result<V::Value, DeError>
+        where
+            V: Visitor<'de>,
+            requires self.ok(),
+        { let mut self__ = self;
+            // No need to unescape because valid integer representations cannot be escaped
+            let text = self__.read_string()?;
+            match parse_(&text) {
+                Ok(number) => visitor.visit_u64(number),
+                Err(_) => match text {
+                    Cow::Borrowed(t) => visitor.visit_str(t),
+                    Cow::Owned(t) => visitor.visit_string(t),
+                }
+            }
+        }
+//@end
+//@extract de::map::MapValueDeserializer::deserialize_f32 | src/de/map.rs :: impl<'de, 'd, 'm, R, E> de::Deserializer<'de> for MapValueDeserializer<'de, 'd, 'm, R, E> where R: XmlRead<'de>, E: EntityResolver, :: invoke deserialize_primitives :: invoke deserialize_num :: fn deserialize_f32 | serves=C07 features=serialize macro_files=src/de/mod.rs
+//@rewrite-opt Self::Error ==> DeError
+//@rewrite text.parse() ==> parse_(&text)
+        fn deserialize_f32<V>(self, visitor: V) -> Result<V::Value, DeError>
+        where
+            V: Visitor<'de>,
+            requires self.ok(),
+        { let mut self__ = self;
+            // No need to unescape because valid integer representations cannot be escaped
+            let text = self__.read_string()?;
+            match parse_(&text) {
+                Ok(number) => visitor.visit_f32(number),
+                Err(_) => match text {
+                    Cow::Borrowed(t) => visitor.visit_str(t),
+                    Cow::Owned(t) => visitor.visit_string(t),
+                }
+            }
+        }
+//@end
+//@extract de::map::MapValueDeserializer::deserialize_f64 | src/de/map.rs :: impl<'de, 'd, 'm, R, E> de::Deserializer<'de> for MapValueDeserializer<'de, 'd, 'm, R, E> where R: XmlRead<'de>, E: EntityResolver, :: invoke deserialize_primitives :: invoke deserialize_num :: fn deserialize_f64 | serves=C07 features=serialize macro_files=src/de/mod.rs
+//@rewrite-opt Self::Error ==> DeError
+//@rewrite text.parse() ==> parse_(&text)
+        fn deserialize_f64<V>(self, visitor: V) -> Result<V::Value, DeError>
+        where
+            V: Visitor<'de>,
+            requires self.ok(),
+        { let mut self__ = self;
+            // No need to unescape because valid integer representations cannot be escaped
+            let text = self__.read_string()?;
+            match parse_(&text) {
+                Ok(number) => visitor.visit_f64(number),
+                Err(_) => match text {
+                    Cow::Borrowed(t) => visitor.visit_str(t),
+                    Cow::Owned(t) => visitor.visit_string(t),
+                }
+            }
+        }
+//@end
 //@extract de::map::MapValueDeserializer::deserialize_char | src/de/map.rs :: impl<'de, 'd, 'm, R, E> de::Deserializer<'de> for MapValueDeserializer<'de, 'd, 'm, R, E> where R: XmlRead<'de>, E: EntityResolver, :: invoke deserialize_primitives :: fn deserialize_char | serves=C07 features=serialize macro_files=src/de/mod.rs
 //@rewrite-opt Self::Error ==> DeError
         fn deserialize_char<V>(self, visitor: V) -> Result<V::Value, DeError>
@@ -3249,6 +3834,196 @@ where
                 Cow::Owned(s) => CowRef::Owned(s),
             };
             text.deserialize_bool(visitor)
+        }
+//@end
+//@extract de::map::ElementDeserializer::deserialize_i8 | src/de/map.rs :: impl<'de, 'd, R, E> de::Deserializer<'de> for ElementDeserializer<'de, 'd, R, E> where R: XmlRead<'de>, E: EntityResolver, :: invoke deserialize_primitives :: invoke deserialize_num :: fn deserialize_i8 | serves=C07 features=serialize macro_files=src/de/mod.rs
+//@rewrite-opt Self::Error ==> DeError
+//@rewrite text.parse() ==> parse_(&text)
+        fn deserialize_i8<V>(self, visitor: V) -> Result<V::Value, DeError>
+        where
+            V: Visitor<'de>,
+            requires self.de_ok(),
+        { let mut self__ = self;
+            // No need to unescape because valid integer representations cannot be escaped
+            let text = self__.read_string()?;
+            match parse_(&text) {
+                Ok(number) => visitor.visit_i8(number),
+                Err(_) => match text {
+                    Cow::Borrowed(t) => visitor.visit_str(t),
+                    Cow::Owned(t) => visitor.visit_string(t),
+                }
+            }
+        }
+//@end
+//@extract de::map::ElementDeserializer::deserialize_i16 | src/de/map.rs :: impl<'de, 'd, R, E> de::Deserializer<'de> for ElementDeserializer<'de, 'd, R, E> where R: XmlRead<'de>, E: EntityResolver, :: invoke deserialize_primitives :: invoke deserialize_num :: fn deserialize_i16 | serves=C07 features=serialize macro_files=src/de/mod.rs
+//@rewrite-opt Self::Error ==> DeError
+//@rewrite text.parse() ==> parse_(&text)
+        fn deserialize_i16<V>(self, visitor: V) -> Result<V::Value, DeError>
+        where
+            V: Visitor<'de>,
+            requires self.de_ok(),
+        { let mut self__ = self;
+            // No need to unescape because valid integer representations cannot be escaped
+            let text = self__.read_string()?;
+            match parse_(&text) {
+                Ok(number) => visitor.visit_i16(number),
+                Err(_) => match text {
+                    Cow::Borrowed(t) => visitor.visit_str(t),
+                    Cow::Owned(t) => visitor.visit_string(t),
+                }
+            }
+        }
+//@end
+//@extract de::map::ElementDeserializer::deserialize_i32 | src/de/map.rs :: impl<'de, 'd, R, E> de::Deserializer<'de> for ElementDeserializer<'de, 'd, R, E> where R: XmlRead<'de>, E: EntityResolver, :: invoke deserialize_primitives :: invoke deserialize_num :: fn deserialize_i32 | serves=C07 features=serialize macro_files=src/de/mod.rs
+//@rewrite-opt Self::Error ==> DeError
+//@rewrite text.parse() ==> parse_(&text)
+        fn deserialize_i32<V>(self, visitor: V) -> Result<V::Value, DeError>
+        where
+            V: Visitor<'de>,
+            requires self.de_ok(),
+        { let mut self__ = self;
+            // No need to unescape because valid integer representations cannot be escaped
+            let text = self__.read_string()?;
+            match parse_(&text) {
+                Ok(number) => visitor.visit_i32(number),
+                Err(_) => match text {
+                    Cow::Borrowed(t) => visitor.visit_str(t),
+                    Cow::Owned(t) => visitor.visit_string(t),
+                }
+            }
+        }
+//@end
+//@extract de::map::ElementDeserializer::deserialize_i64 | src/de/map.rs :: impl<'de, 'd, R, E> de::Deserializer<'de> for ElementDeserializer<'de, 'd, R, E> where R: XmlRead<'de>, E: EntityResolver, :: invoke deserialize_primitives :: invoke deserialize_num :: fn deserialize_i64 | serves=C07 features=serialize macro_files=src/de/mod.rs
+//@rewrite-opt Self::Error ==> DeError
+//@rewrite text.parse() ==> parse_(&text)
+        fn deserialize_i64<V>(self, visitor: V) -> Result<V::Value, DeError>
+        where
+            V: Visitor<'de>,
+            requires self.de_ok(),
+        { let mut self__ = self;
+            // No need to unescape because valid integer representations cannot be escaped
+            let text = self__.read_string()?;
+            match parse_(&text) {
+                Ok(number) => visitor.visit_i64(number),
+                Err(_) => match text {
+                    Cow::Borrowed(t) => visitor.visit_str(t),
+                    Cow::Owned(t) => visitor.visit_string(t),
+                }
+            }
+        }
+//@end
+//@extract de::map::ElementDeserializer::deserialize_u8 | src/de/map.rs :: impl<'de, 'd, R, E> de::Deserializer<'de> for ElementDeserializer<'de, 'd, R, E> where R: XmlRead<'de>, E: EntityResolver, :: invoke deserialize_primitives :: invoke deserialize_num :: fn deserialize_u8 | serves=C07 features=serialize macro_files=src/de/mod.rs
+//@rewrite-opt Self::Error ==> DeError
+//@rewrite text.parse() ==> parse_(&text)
+        fn deserialize_u8<V>(self, visitor: V) -> Result<V::Value, DeError>
+        where
+            V: Visitor<'de>,
+            requires self.de_ok(),
+        { let mut self__ = self;
+            // No need to unescape because valid integer representations cannot be escaped
+            let text = self__.read_string()?;
+            match parse_(&text) {
+                Ok(number) => visitor.visit_u8(number),
+                Err(_) => match text {
+                    Cow::Borrowed(t) => visitor.visit_str(t),
+                    Cow::Owned(t) => visitor.visit_string(t),
+                }
+            }
+        }
+//@end
+//@extract de::map::ElementDeserializer::deserialize_u16 | src/de/map.rs :: impl<'de, 'd, R, E> de::Deserializer<'de> for ElementDeserializer<'de, 'd, R, E> where R: XmlRead<'de>, E: EntityResolver, :: invoke deserialize_primitives :: invoke deserialize_num :: fn deserialize_u16 | serves=C07 features=serialize macro_files=src/de/mod.rs
+//@rewrite-opt Self::Error ==> DeError
+//@rewrite text.parse() ==> parse_(&text)
+        fn deserialize_u16<V>(self, visitor: V) -> Result<V::Value, DeError>
+        where
+            V: Visitor<'de>,
+            requires self.de_ok(),
+        { let mut self__ = self;
+            // No need to unescape because valid integer representations cannot be escaped
+            let text = self__.read_string()?;
+            match parse_(&text) {
+                Ok(number) => visitor.visit_u16(number),
+                Err(_) => match text {
+                    Cow::Borrowed(t) => visitor.visit_str(t),
+                    Cow::Owned(t) => visitor.visit_string(t),
+                }
+            }
+        }
+//@end
+//@extract de::map::ElementDeserializer::deserialize_u32 | src/de/map.rs :: impl<'de, 'd, R, E> de::Deserializer<'de> for ElementDeserializer<'de, 'd, R, E> where R: XmlRead<'de>, E: EntityResolver, :: invoke deserialize_primitives :: invoke deserialize_num :: fn deserialize_u32 | serves=C07 features=serialize macro_files=src/de/mod.rs
+//@rewrite-opt Self::Error ==> DeError
+//@rewrite text.parse() ==> parse_(&text)
+        fn deserialize_u32<V>(self, visitor: V) -> Result<V::Value, DeError>
+        where
+            V: Visitor<'de>,
+            requires self.de_ok(),
+        { let mut self__ = self;
+            // No need to unescape because valid integer representations cannot be escaped
+            let text = self__.read_string()?;
+            match parse_(&text) {
+                Ok(number) => visitor.visit_u32(number),
+                Err(_) => match text {
+                    Cow::Borrowed(t) => visitor.visit_str(t),
+                    Cow::Owned(t) => visitor.visit_string(t),
+                }
+            }
+        }
+//@end
+//@extract de::map::ElementDeserializer::deserialize_u64 | src/de/map.rs :: impl<'de, 'd, R, E> de::Deserializer<'de> for ElementDeserializer<'de, 'd, R, E> where R: XmlRead<'de>, E: EntityResolver, :: invoke deserialize_primitives :: invoke deserialize_num :: fn deserialize_u64 | serves=C07 features=serialize macro_files=src/de/mod.rs
+//@rewrite-opt Self::Error ==> DeError
+//@rewrite text.parse() ==> parse_(&text)
+        fn deserialize_u64<V>(self, visitor: V) -> Result<V::Value, DeError>
+        where
+            V: Visitor<'de>,
+            requires self.de_ok(),
+        { let mut self__ = self;
+            // No need to unescape because valid integer representations cannot be escaped
+            let text = self__.read_string()?;
+            match parse_(&text) {
+                Ok(number) => visitor.visit_u64(number),
+                Err(_) => match text {
+                    Cow::Borrowed(t) => visitor.visit_str(t),
+                    Cow::Owned(t) => visitor.visit_string(t),
+                }
+            }
+        }
+//@end
+//@extract de::map::ElementDeserializer::deserialize_f32 | src/de/map.rs :: impl<'de, 'd, R, E> de::Deserializer<'de> for ElementDeserializer<'de, 'd, R, E> where R: XmlRead<'de>, E: EntityResolver, :: invoke deserialize_primitives :: invoke deserialize_num :: fn deserialize_f32 | serves=C07 features=serialize macro_files=src/de/mod.rs
+//@rewrite-opt Self::Error ==> DeError
+//@rewrite text.parse() ==> parse_(&text)
+        fn deserialize_f32<V>(self, visitor: V) -> Result<V::Value, DeError>
+        where
+            V: Visitor<'de>,
+            requires self.de_ok(),
+        { let mut self__ = self;
+            // No need to unescape because valid integer representations cannot be escaped
+            let text = self__.read_string()?;
+            match parse_(&text) {
+                Ok(number) => visitor.visit_f32(number),
+                Err(_) => match text {
+                    Cow::Borrowed(t) => visitor.visit_str(t),
+                    Cow::Owned(t) => visitor.visit_string(t),
+                }
+            }
+        }
+//@end
+//@extract de::map::ElementDeserializer::deserialize_f64 | src/de/map.rs :: impl<'de, 'd, R, E> de::Deserializer<'de> for ElementDeserializer<'de, 'd, R, E> where R: XmlRead<'de>, E: EntityResolver, :: invoke deserialize_primitives :: invoke deserialize_num :: fn deserialize_f64 | serves=C07 features=serialize macro_files=src/de/mod.rs
+//@rewrite-opt Self::Error ==> DeError
+//@rewrite text.parse() ==> parse_(&text)
+        fn deserialize_f64<V>(self, visitor: V) -> Result<V::Value, DeError>
+        where
+            V: Visitor<'de>,
+            requires self.de_ok(),
+        { let mut self__ = self;
+            // No need to unescape because valid integer representations cannot be escaped
+            let text = self__.read_string()?;
+            match parse_(&text) {
+                Ok(number) => visitor.visit_f64(number),
+                Err(_) => match text {
+                    Cow::Borrowed(t) => visitor.visit_str(t),
+                    Cow::Owned(t) => visitor.visit_string(t),
+                }
+            }
         }
 //@end
 //@extract de::map::ElementDeserializer::deserialize_char | src/de/map.rs :: impl<'de, 'd, R, E> de::Deserializer<'de> for ElementDeserializer<'de, 'd, R, E> where R: XmlRead<'de>, E: EntityResolver, :: invoke deserialize_primitives :: fn deserialize_char | serves=C07 features=serialize macro_files=src/de/mod.rs
